@@ -2,6 +2,7 @@
 """tools/eval_mutant.py Cxx k [extra check props...] — store the seeded change under /verif/seeded/Cxx-mk, apply it to /repo,
 run the property's quick check (and any extra ones), record which checks fired, undo the change."""
 import json, os, shutil, subprocess, sys, re
+REPO = os.environ.get("MUT_REPO", "/repo")  # a scratch worktree of /repo lets a sweep of the unchanged tree run at the same time
 p, k = sys.argv[1], sys.argv[2]
 extra = sys.argv[3:]
 src = "/tmp/wt-out/%s/m%s" % (p, k)
@@ -10,12 +11,12 @@ os.makedirs(dst, exist_ok=True)
 for f in ("patch.diff", "demo_test.go", "meta.json", "confirm.json"):
     if os.path.isdir(src) and os.path.exists(os.path.join(src, f)):
         shutil.copy(os.path.join(src, f), os.path.join(dst, f))
-assert subprocess.run(["git", "-C", "/repo", "status", "--porcelain"], capture_output=True, text=True).stdout.strip() == "", "/repo not clean"
-subprocess.run(["git", "-C", "/repo", "apply", os.path.join(dst, "patch.diff")], check=True)
+assert subprocess.run(["git", "-C", REPO, "status", "--porcelain"], capture_output=True, text=True).stdout.strip() == "", REPO + " not clean"
+subprocess.run(["git", "-C", REPO, "apply", os.path.join(dst, "patch.diff")], check=True)
 results = {}
 try:
     for prop in [p] + extra:
-        env = dict(os.environ, VF_REPLAY_DIR="/tmp/mut-replays")
+        env = dict(os.environ, VF_REPLAY_DIR="/tmp/mut-replays", VF_REPO=REPO)
         r = subprocess.run(["./check", prop, "--tier", "quick"], cwd="/verif", capture_output=True, text=True, env=env)
         keys = re.findall(r"^VIOLATION property=(\S+) replay=\S+\n\s+key=(\S+)", r.stdout, re.M)
         summ = [l for l in r.stdout.splitlines() if l.startswith("SUMMARY")]
@@ -23,7 +24,7 @@ try:
                          "broken": [l[:300] for l in r.stdout.splitlines() if l.startswith("BROKEN")][:3],
                          "foreign": [l[:200] for l in r.stdout.splitlines() if l.startswith("FOREIGN")][:6]}
 finally:
-    subprocess.run(["git", "-C", "/repo", "checkout", "--", "."], check=True)
+    subprocess.run(["git", "-C", REPO, "checkout", "--", "."], check=True)
 json.dump(results, open(os.path.join(dst, "result.json"), "w"), indent=1)
 for prop, r in results.items():
     print(p, "m" + k, "check", prop, "rc", r["rc"], r["violations"][:4], r["broken"][:1], r["foreign"][:2])
